@@ -38,6 +38,10 @@ def two_endpoints(run, n):
             vals[SC.ENABLE_CONNECT_PROTOCOL] = rnd.choice([0, 1])
         c = h2.connection.H2Connection(config=h2.config.H2Configuration(client_side=True))
         c.local_settings = h2.settings.Settings(client=True, initial_values=vals)
+        # configuring a client by replacing local_settings bypasses what an acknowledged HEADER_TABLE_SIZE does: tell the decoder
+        # (otherwise a server that honours a size above 4096 is refused; masked until fix a61fac8 by the lost size announcement)
+        if SC.HEADER_TABLE_SIZE in vals:
+            c.decoder.max_allowed_table_size = vals[SC.HEADER_TABLE_SIZE]
         s = h2.connection.H2Connection(config=h2.config.H2Configuration(client_side=False))
         hdr = c.initiate_upgrade_connection()
         s.initiate_upgrade_connection(hdr)
